@@ -71,7 +71,7 @@ pub fn strategy() -> impl Strategy<Value = Case> {
         2 => (1u32..=3).prop_map(|n| TrigSpec::Time(format!("{} seconds", n), false)),
     ];
     // (u32::MAX stands for "the window ends at index u32::MAX")
-    let roller = (prop::sample::select(vec![0u32, 1, 7, 0, 1, 7, u32::MAX]), 1u32..=6, prop::sample::select(vec!["a.{}.log", "arch/{}/a.log", "a.{}.log.gz", "arch/{}/a.{}.log", crate::c05::FIXED_PATTERNS[6], crate::c05::FIXED_PATTERNS[7]]))
+    let roller = (prop::sample::select(vec![0u32, 1, 7, 0, 1, 7, u32::MAX]), 1u32..=6, prop::sample::select(vec!["a.{}.log", "arch/{}/a.log", "a.{}.log.gz", "arch/{}/a.{}.log", crate::c05::FIXED_PATTERNS[7], crate::c05::FIXED_PATTERNS[8]]))
         .prop_map(|(base, count, p)| RollSpec::Fixed { base: if base == u32::MAX { u32::MAX - (count - 1) } else { base }, count, pattern: p.to_string() });
     let roller = prop_oneof![
         8 => roller,
